@@ -107,7 +107,7 @@ def project(world=None):
         params = _j(w[8]) or {}
         out_wf.append(dict(sid=sid, name=w[2], state=w[3], info=scrub((w[4] or ''))[:200], output=scrub(canon(_j(w[5]))),
                            parent=tk_sid.get(w[6], '') if w[6] else '', root=wf_sid.get(w[7], sid) if w[7] else sid,
-                           accepted=bool(w[11]), idx=(rc.get('index', 0) or 0), backlog=len(rc.get('backlog_commands', []) or []),
+                           inp=canon(_j(w[9])), accepted=bool(w[11]), idx=(rc.get('index', 0) or 0), backlog=len(rc.get('backlog_commands', []) or []),
                            ns=(params.get('namespace') if params.get('namespace') is not None else (w[13] or '')), env=canon(params.get('env')), project=w[14] or ''))
     out_tk = []
     for t in tks:
@@ -134,6 +134,7 @@ def project(world=None):
         rc = _j(a[8]) or {}
         out_ax.append(dict(sid=sid, task=tk_sid[a[3]], idx=rc.get('index', 0), state=a[4], accepted=bool(a[5]),
                            out=scrub(canon(_j(a[6]))), isSync=bool(a[9]), name=a[2],
+                           probe=(canon((_j(a[7]) or {}).get('echo')) if isinstance(_j(a[7]), dict) and 'echo' in (_j(a[7]) or {}) else ''),
                            hb=(-1 if a[10] is None else _vt(a[10]))))
     ids = dict(wf={v: k for k, v in wf_sid.items()}, tk={v: k for k, v in tk_sid.items()}, ax={v: k for k, v in ax_sid.items()},
                wf_rev=wf_sid, tk_rev=tk_sid, ax_rev=ax_sid)
